@@ -44,10 +44,13 @@ theorem step_inv (s : St) (e : Ev) (h : Inv s) : Inv (step s e) := by
     simp only [step]; by_cases hxu : x.1 = u
     · simp only [hxu, if_true]; omega
     · simp only [hxu, if_false]; omega
-  | swapOld u =>
-    simp only [step]; by_cases hxu : x.1 = u
-    · simp only [hxu, if_true]; omega
-    · simp only [hxu, if_false]; omega
+  | swapOld u up down =>
+    simp only [step]
+    split
+    · simp only; by_cases hxu : x.1 = u
+      · simp only [hxu, if_true]; omega
+      · simp only [hxu, if_false]; omega
+    · exact hx
   | enqueueOne u =>
     simp only [step]; by_cases hxu : x.1 = u
     · simp only [hxu, if_true]; omega
@@ -127,10 +130,19 @@ theorem step_nonneg (s : St) (e : Ev) (h : NonNeg s) : NonNeg (step s e) := by
     simp only [step]; by_cases hxu : x.1 = u
     · simp only [hxu, if_true]; exact ⟨by omega, h2, by omega, h4, h5, h6⟩
     · simp only [hxu, if_false]; exact ⟨h1, h2, h3, h4, h5, h6⟩
-  | swapOld u =>
-    simp only [step]; by_cases hxu : x.1 = u
-    · simp only [hxu, if_true]; exact ⟨h1, by omega, by omega, h4, h5, h6⟩
-    · simp only [hxu, if_false]; exact ⟨h1, h2, h3, h4, h5, h6⟩
+  | swapOld u up down =>
+    simp only [step]
+    split
+    · rename_i hg
+      simp only; by_cases hxu : x.1 = u
+      · obtain ⟨xu, xd⟩ := x
+        simp only at hxu; subst hxu
+        simp only [if_true]
+        cases xd
+        · simp only [Bool.false_eq_true, if_false]; exact ⟨h1, by omega, by omega, h4, h5, h6⟩
+        · simp only [if_true]; exact ⟨h1, by omega, by omega, h4, h5, h6⟩
+      · simp only [hxu, if_false]; exact ⟨h1, h2, h3, h4, h5, h6⟩
+    · exact ⟨h1, h2, h3, h4, h5, h6⟩
   | enqueueOne u =>
     simp only [step]; by_cases hxu : x.1 = u
     · simp only [hxu, if_true]; exact ⟨h1, h2, by omega, by omega, h5, h6⟩
